@@ -431,9 +431,9 @@ def printer_indent_prefix(ctx):
     rets = [r for r in walk_func(fn) if isinstance(r, ast.Return)]
     ctx.require(rets, "_indent_line has no return")
     n = 0
-    for r in rets:
+    from .common import arms
+    for r, v in [(r_, v_) for r_ in rets for v_ in arms(r_.value)]:
         n += 1
-        v = r.value
         okp = P.matches(v, "self.indentstring * self.indent + %s" % line)
         env = {}
         oks = P.matches(v, "re.sub($rx, self.indentstring * self.indent, %s)" % line, env)
